@@ -419,7 +419,7 @@ def build_scripts(ctx, prop, tier):
                 pair_cold(rng, st, c); kind = "cold"
             scripts.append(dict(cfg=c, kind=kind, steps=st))
         elif prop == "C09" and i % 5 < 2:
-            scripts.append(gen_stale_diff(rng) if i % 20 == 11 else (gen_across(rng, early=(i % 20 == 6)) if i % 10 else gen_weight_memory(rng)))
+            scripts.append((gen_across(rng, early=(i % 20 == 6)) if i % 10 else gen_weight_memory(rng)))
         elif prop == "C09":
             c = rand_cfg(rng, dyn=rng.random() < 0.4)
             if rng.random() < 0.6:
@@ -430,12 +430,18 @@ def build_scripts(ctx, prop, tier):
             else:
                 kind = ""
             scripts.append(dict(cfg=c, kind=kind, steps=st))
-        elif i % 10 == 7:  # C15: power-on without an FFC yet
-            c = rand_cfg(rng, dyn=True)
-            scripts.append(dict(cfg=c, kind="", steps=gen_boot(rng, c)))
         else:  # C15
             c = rand_cfg(rng, dyn=True)
             scripts.append(dict(cfg=c, kind="", steps=gen_stream(rng, c, rng.randint(8, 40), ffc=rng.random() < 0.6)))
+    # targeted additions with streams of their own (the scripts above stay what they were)
+    if prop == "C09":
+        xr = ctx.sub_rng("detect.stale-diff")
+        scripts += [gen_stale_diff(xr) for _ in range(n // 20)]
+    if prop == "C15":
+        xr = ctx.sub_rng("detect.power-on")
+        for _ in range(n // 10):
+            c = rand_cfg(xr, dyn=True)
+            scripts.append(dict(cfg=c, kind="", steps=gen_boot(xr, c)))
     return scripts
 
 
